@@ -267,6 +267,42 @@ pub fn from_lib(p: &jp::JsonPath) -> Result<PathAst, String> {
     };
     Ok(PathAst::Steps(start, rest.iter().map(step_from_lib).collect::<Result<_, _>>()?))
 }
+/// non-negative Int64 literals and UInt64 literals of the same value are the same literal
+/// (`+1` reads as Int64(1), prints as `1`, reads back as UInt64(1))
+pub fn unsign_literals(a: &PathAst) -> PathAst {
+    fn lit(l: &Lit) -> Lit {
+        match l {
+            Lit::Num(N::I(v)) if *v >= 0 => Lit::Num(N::U(*v as u64)),
+            x => x.clone(),
+        }
+    }
+    fn operand(o: &Operand) -> Operand {
+        match o {
+            Operand::Lit(l) => Operand::Lit(lit(l)),
+            Operand::Path { root, steps } => Operand::Path { root: *root, steps: steps.iter().map(step).collect() },
+        }
+    }
+    fn step(s: &Step) -> Step {
+        match s {
+            Step::Filter(e) => Step::Filter(Box::new(expr(e))),
+            x => x.clone(),
+        }
+    }
+    fn expr(e: &Expr) -> Expr {
+        match e {
+            Expr::Cmp(op, l, r) => Expr::Cmp(*op, operand(l), operand(r)),
+            Expr::And(l, r) => Expr::And(Box::new(expr(l)), Box::new(expr(r))),
+            Expr::Or(l, r) => Expr::Or(Box::new(expr(l)), Box::new(expr(r))),
+            Expr::Exists { root, steps } => Expr::Exists { root: *root, steps: steps.iter().map(step).collect() },
+            Expr::Unsupported(s) => Expr::Unsupported(s.replace("UInt64(", "Int64(")),
+        }
+    }
+    match a {
+        PathAst::Predicate(e) => PathAst::Predicate(expr(e)),
+        PathAst::Steps(st, steps) => PathAst::Steps(st.clone(), steps.iter().map(step).collect()),
+    }
+}
+
 /// `Steps(Bare(n), s)` and `Steps(None, [Field(Dot, n), s..])` are the same structure
 pub fn normalize(a: &PathAst) -> PathAst {
     match a {
@@ -286,10 +322,14 @@ pub struct Style<'a> {
     pub at: usize,
     /// plain style: no optional whitespace, lower-case keywords, `!=`, minimal quoting
     pub plain: bool,
+    out: String,
+    /// the output ends with an unquoted name: only blanks may follow it directly (a tab
+    /// or a newline would be read as part of the name)
+    last_raw: bool,
 }
 impl<'a> Style<'a> {
     pub fn new(ch: &'a [u16], plain: bool) -> Self {
-        Style { ch, at: 0, plain }
+        Style { ch, at: 0, plain, out: String::new(), last_raw: false }
     }
     fn next(&mut self) -> u16 {
         if self.plain || self.ch.is_empty() {
@@ -299,22 +339,35 @@ impl<'a> Style<'a> {
         self.at += 1;
         v
     }
-    /// optional whitespace; `after_raw_name`: only blanks may follow an unquoted name
-    /// (a tab or newline would be read as part of the name)
-    fn ws(&mut self, after_raw_name: bool) -> &'static str {
-        let c = self.next();
-        if after_raw_name {
-            ["", "", "", " ", "  "][pick(c, 5)]
-        } else {
-            ["", "", "", " ", "  ", "\t", "\n", "\r\n", " \t "][pick(c, 9)]
+    fn emit(&mut self, s: &str) {
+        if !s.is_empty() {
+            self.out.push_str(s);
+            self.last_raw = false;
         }
     }
-    fn kw(&mut self, w: &str) -> String {
-        match self.next() % 4 {
+    fn emit_raw_name(&mut self, s: &str) {
+        self.out.push_str(s);
+        self.last_raw = true;
+    }
+    /// optional whitespace
+    fn ws(&mut self) {
+        let c = self.next();
+        let w = ["", "", "", " ", "  ", "\t", "\n", "\r\n", " \t "][pick(c, 9)];
+        self.emit(w);
+    }
+    /// mandatory separation (around `to`)
+    fn sep(&mut self) {
+        let c = self.next();
+        let w = if self.plain { " " } else { [" ", "  ", " \t", " \n "][pick(c, 4)] };
+        self.emit(w);
+    }
+    fn kw(&mut self, w: &str) {
+        let k = match self.next() % 4 {
             0 | 1 => w.to_string(),
             2 => w.to_uppercase(),
             _ => w.chars().enumerate().map(|(i, c)| if i % 2 == 0 { c.to_ascii_uppercase() } else { c }).collect(),
-        }
+        };
+        self.emit(&k);
     }
 }
 
@@ -325,7 +378,7 @@ pub fn raw_name_ok(s: &str) -> bool {
         && s.chars().all(|c| {
             !matches!(
                 c,
-                ' ' | ',' | '.' | ':' | '{' | '}' | '[' | ']' | '(' | ')' | '?' | '@' | '$' | '|' | '<' | '>' | '!' | '=' | '+'
+                ' ' | ',' | '.' | ':' | '{' | '}' | '[' | ']' | '(' | ')' | '?' | '@' | '$' | '|' | '&' | '<' | '>' | '!' | '=' | '+'
                     | '-' | '*' | '/' | '%' | '"' | '\'' | '\\' | '\t' | '\n' | '\r'
             ) && !c.is_control()
         })
@@ -335,7 +388,7 @@ pub fn plain_text_ok(s: &str) -> bool {
     raw_name_ok(s)
 }
 
-fn quote(s: &str, st: &mut Style) -> String {
+fn quote(s: &str, st: &mut Style) {
     let mut out = String::from("\"");
     for c in s.chars() {
         let sel = st.next();
@@ -348,7 +401,7 @@ fn quote(s: &str, st: &mut Style) -> String {
             '\r' if sel % 2 == 0 => out.push_str("\\r"),
             '\t' if sel % 2 == 0 => out.push_str("\\t"),
             '/' if sel % 4 == 0 => out.push_str("\\/"),
-            c if (c as u32) < 0x10000 && (sel % 8 == 7 || (c as u32) < 0x20 && sel % 2 == 1) && !(0xD800..=0xDFFF).contains(&(c as u32)) => {
+            c if (c as u32) < 0x10000 && (sel % 8 == 7 || (c as u32) < 0x20 && sel % 2 == 1) => {
                 if sel & 0x100 != 0 {
                     out.push_str(&format!("\\u{:04X}", c as u32));
                 } else {
@@ -363,122 +416,108 @@ fn quote(s: &str, st: &mut Style) -> String {
         }
     }
     out.push('"');
-    out
+    st.emit(&out);
 }
 
-fn p_idx(i: &Idx, st: &mut Style, out: &mut String) {
+fn p_idx(i: &Idx, st: &mut Style) {
     match i {
-        Idx::At(v) => out.push_str(&v.to_string()),
+        Idx::At(v) => st.emit(&v.to_string()),
         Idx::Last(0) => {
-            let k = st.kw("last");
-            out.push_str(&k);
+            st.kw("last");
             match st.next() % 6 {
                 0 => {
-                    out.push_str(st.ws(false));
-                    out.push('-');
-                    out.push_str(st.ws(false));
-                    out.push('0');
+                    st.ws();
+                    st.emit("-");
+                    st.ws();
+                    st.emit("0");
                 }
                 1 => {
-                    out.push_str(st.ws(false));
-                    out.push('+');
-                    out.push_str(st.ws(false));
-                    out.push('0');
+                    st.ws();
+                    st.emit("+");
+                    st.ws();
+                    st.emit("0");
                 }
                 _ => {}
             }
         }
         Idx::Last(v) => {
-            let k = st.kw("last");
-            out.push_str(&k);
-            out.push_str(st.ws(false));
-            out.push(if *v < 0 { '-' } else { '+' });
-            out.push_str(st.ws(false));
-            out.push_str(&(*v as i64).abs().to_string());
+            st.kw("last");
+            st.ws();
+            st.emit(if *v < 0 { "-" } else { "+" });
+            st.ws();
+            st.emit(&(*v as i64).abs().to_string());
         }
     }
 }
 
-/// returns whether the step ended with an unquoted name
-fn p_step(s: &Step, st: &mut Style, out: &mut String) -> bool {
+fn p_step(s: &Step, st: &mut Style) {
     match s {
-        Step::DotWild => {
-            out.push_str(".*");
-            false
-        }
+        Step::DotWild => st.emit(".*"),
         Step::BrWild => {
-            out.push('[');
-            out.push_str(st.ws(false));
-            out.push('*');
-            out.push_str(st.ws(false));
-            out.push(']');
-            false
+            st.emit("[");
+            st.ws();
+            st.emit("*");
+            st.ws();
+            st.emit("]");
         }
         Step::Field(form, name) => {
             let raw = raw_name_ok(name) && (st.plain || st.next() % 3 != 0);
             match form {
                 FieldForm::Dot | FieldForm::Colon => {
-                    out.push(if *form == FieldForm::Dot { '.' } else { ':' });
+                    st.emit(if *form == FieldForm::Dot { "." } else { ":" });
                     if raw {
-                        out.push_str(name);
+                        st.emit_raw_name(name);
                     } else {
-                        out.push_str(&quote(name, st));
+                        quote(name, st);
                     }
-                    raw
                 }
                 FieldForm::Bracket => {
-                    out.push('[');
-                    out.push_str(st.ws(false));
-                    out.push_str(&quote(name, st));
-                    out.push_str(st.ws(false));
-                    out.push(']');
-                    false
+                    st.emit("[");
+                    st.ws();
+                    quote(name, st);
+                    st.ws();
+                    st.emit("]");
                 }
             }
         }
         Step::Indices(v) => {
-            out.push('[');
+            st.emit("[");
             for (k, a) in v.iter().enumerate() {
                 if k > 0 {
-                    out.push(',');
+                    st.emit(",");
                 }
-                out.push_str(st.ws(false));
+                st.ws();
                 match a {
-                    AIdx::One(i) => p_idx(i, st, out),
+                    AIdx::One(i) => p_idx(i, st),
                     AIdx::Slice(s, e) => {
-                        p_idx(s, st, out);
-                        // `last` followed directly by `to` still scans: keywords are tags
-                        out.push_str(if st.plain { " " } else { [" ", "  ", "\t", " \n"][pick(st.next(), 4)] });
-                        let k = st.kw("to");
-                        out.push_str(&k);
-                        out.push_str(if st.plain { " " } else { [" ", "  ", "\t"][pick(st.next(), 3)] });
-                        p_idx(e, st, out);
+                        p_idx(s, st);
+                        st.sep();
+                        st.kw("to");
+                        st.sep();
+                        p_idx(e, st);
                     }
                 }
-                out.push_str(st.ws(false));
+                st.ws();
             }
-            out.push(']');
-            false
+            st.emit("]");
         }
         Step::Filter(e) => {
-            out.push('?');
-            out.push_str(st.ws(false));
-            out.push('(');
-            out.push_str(st.ws(false));
-            p_expr(e, st, out, 0);
-            out.push_str(st.ws(false));
-            out.push(')');
-            false
+            st.emit("?");
+            st.ws();
+            st.emit("(");
+            st.ws();
+            p_expr(e, st, 0);
+            st.ws();
+            st.emit(")");
         }
     }
 }
 
-fn p_steps(steps: &[Step], st: &mut Style, out: &mut String, mut after_raw: bool) -> bool {
+fn p_steps(steps: &[Step], st: &mut Style) {
     for s in steps {
-        out.push_str(st.ws(after_raw));
-        after_raw = p_step(s, st, out);
+        st.ws();
+        p_step(s, st);
     }
-    after_raw
 }
 
 pub fn spell_number(n: &N, sel: u16) -> String {
@@ -489,30 +528,27 @@ pub fn spell_number(n: &N, sel: u16) -> String {
     }
 }
 
-fn p_operand(o: &Operand, st: &mut Style, out: &mut String) -> bool {
+fn p_operand(o: &Operand, st: &mut Style) {
     match o {
         Operand::Path { root, steps } => {
-            out.push(if *root { '$' } else { '@' });
-            p_steps(steps, st, out, false)
+            st.emit(if *root { "$" } else { "@" });
+            p_steps(steps, st);
         }
-        Operand::Lit(l) => {
-            match l {
-                Lit::Null => out.push_str("null"),
-                Lit::Bool(true) => out.push_str("true"),
-                Lit::Bool(false) => out.push_str("false"),
-                Lit::Num(n) => {
-                    let sel = st.next();
-                    out.push_str(&spell_number(n, sel));
-                }
-                Lit::Str(s) => out.push_str(&quote(s, st)),
+        Operand::Lit(l) => match l {
+            Lit::Null => st.emit("null"),
+            Lit::Bool(true) => st.emit("true"),
+            Lit::Bool(false) => st.emit("false"),
+            Lit::Num(n) => {
+                let sel = st.next();
+                st.emit(&spell_number(n, sel));
             }
-            false
-        }
+            Lit::Str(s) => quote(s, st),
+        },
     }
 }
 
 /// prec: 0 = or level, 1 = and level, 2 = atom
-fn p_expr(e: &Expr, st: &mut Style, out: &mut String, prec: u8) {
+fn p_expr(e: &Expr, st: &mut Style, prec: u8) {
     let redundant = !st.plain && st.next() % 7 == 0;
     let my = match e {
         Expr::Or(..) => 0,
@@ -521,31 +557,29 @@ fn p_expr(e: &Expr, st: &mut Style, out: &mut String, prec: u8) {
     };
     let paren = my < prec || redundant;
     if paren {
-        out.push('(');
-        out.push_str(st.ws(false));
+        st.emit("(");
+        st.ws();
     }
-    let inner_prec = if paren { 0 } else { prec };
-    let _ = inner_prec;
     match e {
         Expr::Or(l, r) => {
             // left-associated chains: the right operand of || is an and-level expression
-            p_expr(l, st, out, 0);
-            out.push_str(st.ws(false));
-            out.push_str("||");
-            out.push_str(st.ws(false));
-            p_expr(r, st, out, 1);
+            p_expr(l, st, 0);
+            st.ws();
+            st.emit("||");
+            st.ws();
+            p_expr(r, st, 1);
         }
         Expr::And(l, r) => {
-            p_expr(l, st, out, 1);
-            out.push_str(st.ws(false));
-            out.push_str("&&");
-            out.push_str(st.ws(false));
-            p_expr(r, st, out, 2);
+            p_expr(l, st, 1);
+            st.ws();
+            st.emit("&&");
+            st.ws();
+            p_expr(r, st, 2);
         }
         Expr::Cmp(op, l, r) => {
-            let raw = p_operand(l, st, out);
-            out.push_str(st.ws(raw));
-            out.push_str(match op {
+            p_operand(l, st);
+            st.ws();
+            let o = match op {
                 CmpOp::Eq => "==",
                 CmpOp::Ne => {
                     if st.next() % 2 == 0 {
@@ -558,54 +592,46 @@ fn p_expr(e: &Expr, st: &mut Style, out: &mut String, prec: u8) {
                 CmpOp::Le => "<=",
                 CmpOp::Gt => ">",
                 CmpOp::Ge => ">=",
-            });
-            out.push_str(st.ws(false));
-            let raw = p_operand(r, st, out);
-            // whitespace after the right operand belongs to the operand's delimiters
-            out.push_str(st.ws(raw));
+            };
+            st.emit(o);
+            st.ws();
+            p_operand(r, st);
         }
         Expr::Exists { root, steps } => {
-            out.push_str("exists");
-            out.push_str(st.ws(false));
-            out.push('(');
-            out.push_str(st.ws(false));
-            out.push(if *root { '$' } else { '@' });
-            let raw = p_steps(steps, st, out, false);
-            out.push_str(st.ws(raw));
-            out.push(')');
+            st.emit("exists");
+            st.ws();
+            st.emit("(");
+            st.ws();
+            st.emit(if *root { "$" } else { "@" });
+            p_steps(steps, st);
+            st.ws();
+            st.emit(")");
         }
-        Expr::Unsupported(s) => out.push_str(s),
+        Expr::Unsupported(s) => st.emit(s),
     }
     if paren {
-        out.push_str(st.ws(false));
-        out.push(')');
+        st.ws();
+        st.emit(")");
     }
 }
 
 pub fn print(a: &PathAst, st: &mut Style) -> String {
-    let mut out = String::new();
-    out.push_str(st.ws(false));
+    st.out.clear();
+    st.last_raw = false;
+    st.ws();
     match a {
-        PathAst::Predicate(e) => p_expr(e, st, &mut out, 0),
+        PathAst::Predicate(e) => p_expr(e, st, 0),
         PathAst::Steps(start, steps) => {
-            let after_raw = match start {
-                Start::Root => {
-                    out.push('$');
-                    false
-                }
-                Start::Bare(n) => {
-                    out.push_str(n);
-                    true
-                }
-                Start::None => false,
-            };
-            let raw = p_steps(steps, st, &mut out, after_raw);
-            out.push_str(st.ws(raw));
-            return out;
+            match start {
+                Start::Root => st.emit("$"),
+                Start::Bare(n) => st.emit_raw_name(n),
+                Start::None => {}
+            }
+            p_steps(steps, st);
         }
     }
-    out.push_str(st.ws(false));
-    out
+    st.ws();
+    std::mem::take(&mut st.out)
 }
 
 pub fn print_plain(a: &PathAst) -> String {
@@ -1076,4 +1102,175 @@ pub fn arb_path_for(p: TreeParams) -> BoxedStrategy<PathCase> {
             PathCase { doc, path }
         })
         .boxed()
+}
+
+// ---- document-independent random paths (C09) ------------------------------------------------------------
+
+fn rnd_idx(r: &mut Rnd) -> Idx {
+    let big = [0, 1, 2, 7, 100, 65536, i32::MAX - 1, i32::MAX];
+    match r.below(7) {
+        0 | 1 => Idx::At(big[r.below(big.len())]),
+        2 => Idx::At(-big[r.below(big.len())]),
+        3 => Idx::At(i32::MIN),
+        4 => Idx::Last(0),
+        5 => Idx::Last(-big[r.below(big.len())]),
+        _ => Idx::Last(big[r.below(big.len())]),
+    }
+}
+fn rnd_name(r: &mut Rnd, strs: &[String]) -> String {
+    if !strs.is_empty() && r.below(3) == 0 {
+        strs[r.below(strs.len())].clone()
+    } else {
+        NAMES[r.below(NAMES.len())].to_string()
+    }
+}
+fn rnd_plain_step(r: &mut Rnd, strs: &[String]) -> Step {
+    match r.below(9) {
+        0 => Step::DotWild,
+        1 => Step::BrWild,
+        2 | 3 | 4 => Step::Field([FieldForm::Dot, FieldForm::Colon, FieldForm::Bracket][r.below(3)], rnd_name(r, strs)),
+        _ => {
+            let n = 1 + r.below(3);
+            Step::Indices((0..n).map(|_| if r.below(3) == 0 { AIdx::Slice(rnd_idx(r), rnd_idx(r)) } else { AIdx::One(rnd_idx(r)) }).collect())
+        }
+    }
+}
+fn rnd_lit(r: &mut Rnd, strs: &[String]) -> Lit {
+    match r.below(12) {
+        0 => Lit::Null,
+        1 => Lit::Bool(true),
+        2 => Lit::Bool(false),
+        3 => Lit::Num(N::U([0, 1, 10, 255, 65536, u64::MAX, 1 << 53][r.below(7)])),
+        4 => Lit::Num(N::I([-1, -10, -129, i64::MIN, -(1 << 53) - 1][r.below(5)])),
+        5 | 6 => Lit::Num(N::F([1.5, -0.5, 0.1, 1e3, 2.5e-3, 10.0, -0.0, 1e22, 1e300, 5e-324, 123456789.125, 18446744073709551616.0][r.below(12)])),
+        7 => Lit::Str(String::new()),
+        8 | 9 if !strs.is_empty() => Lit::Str(strs[r.below(strs.len())].clone()),
+        _ => Lit::Str(WORDS_FOR_LITS[r.below(WORDS_FOR_LITS.len())].to_string()),
+    }
+}
+fn rnd_operand_path(r: &mut Rnd, strs: &[String], allow_current: bool) -> Operand {
+    let root = !allow_current || r.below(5) == 0;
+    let n = r.below(3);
+    Operand::Path { root, steps: (0..n).map(|_| rnd_plain_step(r, strs)).collect() }
+}
+fn rnd_atom(r: &mut Rnd, strs: &[String], allow_current: bool, depth: u32) -> Expr {
+    if r.below(10) == 0 && depth < 2 {
+        let root = !allow_current || r.below(5) == 0;
+        let mut steps: Vec<Step> = (0..1 + r.below(2)).map(|_| rnd_plain_step(r, strs)).collect();
+        if r.below(2) == 0 {
+            steps.push(Step::Filter(Box::new(rnd_expr(r, strs, true, depth + 1))));
+        }
+        return Expr::Exists { root, steps };
+    }
+    let op = [CmpOp::Eq, CmpOp::Ne, CmpOp::Lt, CmpOp::Le, CmpOp::Gt, CmpOp::Ge][r.below(6)];
+    let p = rnd_operand_path(r, strs, allow_current);
+    match r.below(8) {
+        0 => Expr::Cmp(op, p, rnd_operand_path(r, strs, allow_current)),
+        1 | 2 => Expr::Cmp(op, Operand::Lit(rnd_lit(r, strs)), p),
+        _ => Expr::Cmp(op, p, Operand::Lit(rnd_lit(r, strs))),
+    }
+}
+pub fn rnd_expr(r: &mut Rnd, strs: &[String], allow_current: bool, depth: u32) -> Expr {
+    let n = 1 + [0, 0, 1, 1, 2, 3][r.below(6)];
+    let mut e = rnd_atom(r, strs, allow_current, depth);
+    for _ in 1..n {
+        let rhs = if r.below(4) == 0 && depth < 2 { rnd_expr(r, strs, allow_current, depth + 1) } else { rnd_atom(r, strs, allow_current, depth) };
+        e = if r.below(2) == 0 { Expr::And(Box::new(e), Box::new(rhs)) } else { Expr::Or(Box::new(e), Box::new(rhs)) };
+    }
+    e
+}
+pub fn random_path_ast(ch: &[u16], strs: &[String]) -> PathAst {
+    let mut r = Rnd { ch, at: 0 };
+    if r.below(6) == 0 {
+        return PathAst::Predicate(rnd_expr(&mut r, strs, false, 0));
+    }
+    let n = [0, 1, 2, 2, 3, 3, 4, 6][r.below(8)];
+    let mut steps: Vec<Step> = vec![];
+    for _ in 0..n {
+        if r.below(4) == 0 {
+            steps.push(Step::Filter(Box::new(rnd_expr(&mut r, strs, true, 0))));
+        } else {
+            steps.push(rnd_plain_step(&mut r, strs));
+        }
+    }
+    let start = match (r.below(8), steps.first()) {
+        (0, Some(Step::Field(FieldForm::Dot, n))) if raw_name_ok(n) && !n.chars().next().unwrap().is_ascii_digit() => {
+            let n = n.clone();
+            steps.remove(0);
+            Start::Bare(n)
+        }
+        (1, Some(Step::Indices(_))) | (1, Some(Step::Field(FieldForm::Bracket, _))) => Start::None,
+        _ => Start::Root,
+    };
+    PathAst::Steps(start, steps)
+}
+
+pub fn count_atoms(e: &Expr) -> usize {
+    match e {
+        Expr::And(l, r) | Expr::Or(l, r) => count_atoms(l) + count_atoms(r),
+        Expr::Exists { steps, .. } => 1 + steps.iter().map(|s| if let Step::Filter(f) = s { count_atoms(f) } else { 0 }).sum::<usize>(),
+        _ => 1,
+    }
+}
+pub fn ast_stats(a: &PathAst) -> (usize, usize, bool) {
+    // (steps, filter atoms, has a non-integer literal)
+    fn lit_nonint(e: &Expr) -> bool {
+        let ol = |o: &Operand| matches!(o, Operand::Lit(Lit::Num(N::F(_))) | Operand::Lit(Lit::Str(_)) | Operand::Lit(Lit::Null) | Operand::Lit(Lit::Bool(_)));
+        match e {
+            Expr::Cmp(_, l, r) => ol(l) || ol(r),
+            Expr::And(l, r) | Expr::Or(l, r) => lit_nonint(l) || lit_nonint(r),
+            Expr::Exists { steps, .. } => steps.iter().any(|s| matches!(s, Step::Filter(f) if lit_nonint(f))),
+            _ => false,
+        }
+    }
+    match a {
+        PathAst::Predicate(e) => (1, count_atoms(e), lit_nonint(e)),
+        PathAst::Steps(_, steps) => (
+            steps.len(),
+            steps.iter().map(|s| if let Step::Filter(f) = s { count_atoms(f) } else { 0 }).sum(),
+            steps.iter().any(|s| matches!(s, Step::Filter(f) if lit_nonint(f))),
+        ),
+    }
+}
+/// all names and string literals of a path need neither quoting nor escaping
+pub fn all_text_plain(a: &PathAst) -> bool {
+    fn step(s: &Step) -> bool {
+        match s {
+            Step::Field(_, n) => plain_text_ok(n),
+            Step::Filter(e) => expr(e),
+            _ => true,
+        }
+    }
+    fn operand(o: &Operand) -> bool {
+        match o {
+            Operand::Path { steps, .. } => steps.iter().all(step),
+            Operand::Lit(Lit::Str(s)) => plain_text_ok(s),
+            _ => true,
+        }
+    }
+    fn expr(e: &Expr) -> bool {
+        match e {
+            Expr::Cmp(_, l, r) => operand(l) && operand(r),
+            Expr::And(l, r) | Expr::Or(l, r) => expr(l) && expr(r),
+            Expr::Exists { steps, .. } => steps.iter().all(step),
+            // arithmetic: judge every quoted item of the debug rendering
+            Expr::Unsupported(d) => {
+                let mut parts = d.split('"');
+                parts.next();
+                let mut ok = true;
+                while let Some(inside) = parts.next() {
+                    ok &= plain_text_ok(inside);
+                    parts.next();
+                }
+                ok && !d.contains('\\')
+            }
+        }
+    }
+    match a {
+        PathAst::Predicate(e) => expr(e),
+        PathAst::Steps(st, steps) => (match st {
+            Start::Bare(n) => plain_text_ok(n),
+            _ => true,
+        }) && steps.iter().all(step),
+    }
 }
